@@ -15,6 +15,7 @@ import (
 	"strings"
 	"sync"
 	"sync/atomic"
+	"time"
 
 	"gitee.com/Trisia/gotlcp/dtlcp"
 	"gitee.com/Trisia/gotlcp/tlcp"
@@ -248,12 +249,36 @@ func c11ConcGen(out *emit.Out, p params, r *rand.Rand) {
 		var next uint64
 		st := []string{"tlcp", "dtlcp"}[i%2]
 		capacity := 1 + r.IntN(3)
-		ops := c11ConcRound(st, capacity, c11ConcPrograms(r, &next))
+		progs := c11ConcPrograms(r, &next)
+		if c11Hung {
+			break
+		}
+		var ops []c11COp
+		if !c11Guard(20*time.Second, func() { ops = c11ConcRound(st, capacity, progs) }) {
+			c11Hung = true
+			var flat []c11COp
+			for g, pr := range progs {
+				for _, o := range pr {
+					o.G = g
+					flat = append(flat, o)
+				}
+			}
+			out.Add(emit.Case{Scenario: "concurrent-small/" + st, Input: c11ConcInput{st, capacity, flat}, Observed: "an operation never returned", Direct: "hang", Coq: c11ConcCoq(capacity, nil)})
+			continue
+		}
 		out.Add(emit.Case{Scenario: "concurrent-small/" + st, Input: c11ConcInput{st, capacity, ops}, Observed: ops, Coq: c11ConcCoq(capacity, ops)})
 	}
 	for i := 0; i < stress; i++ {
 		in := c11StressInput{Stack: []string{"tlcp", "dtlcp"}[i%2], Cap: 1 + i%3, Ops: 30000, Seed: r.Uint64()}
-		puts, gets := c11Stress(in)
+		var puts, gets [][2]uint64
+		if c11Hung {
+			break
+		}
+		if !c11Guard(60*time.Second, func() { puts, gets = c11Stress(in) }) {
+			c11Hung = true
+			out.Add(emit.Case{Scenario: "concurrent-stress/" + in.Stack, Input: in, Observed: "an operation never returned", Direct: "hang", Coq: "StressCase [] []"})
+			continue
+		}
 		out.Add(emit.Case{Scenario: "concurrent-stress/" + in.Stack, Input: in, Observed: map[string]interface{}{"distinct_puts": len(puts), "distinct_hits": len(gets)},
 			Coq: fmt.Sprintf("StressCase %s %s", c11PairList(puts), c11PairList(gets))})
 	}
